@@ -5,7 +5,8 @@ from hypothesis import strategies as st
 
 from .. import conc, sched
 from ..classes import CLASSES, JSON_ALL
-from ..plain import enc, h64
+from ..ops import model_apply
+from ..plain import dec, enc, h64
 from ..runner import Acc, CaseFailure, excl_of, hyp_search
 from . import c09
 
@@ -14,7 +15,10 @@ LEVEL = "exploration"
 RULE = ("Hypothesis-generated programs with >=1 reader thread (1-2 of getitem/get/len/iter/()/==/in and "
         "navigation to a nested child) and >=1 writer thread (1-2 load-and-save mutators), on one "
         "shared object or on two objects bound to one file, unbuffered and inside buffer_backend() "
-        "for both buffering strategies, for the 12 thread-capable JSON classes; executed under the "
+        "for both buffering strategies, for the 12 thread-capable JSON classes; == operands are the "
+        "content before a writer's operation, after it, or a MIX of entries from before and after "
+        "(an impossible state), and a quarter of the programs come from a steered family in which one "
+        "write changes a scalar and, in place, a nested container; executed under the "
         "deterministic scheduler (all single-preemption schedules when <=1600, otherwise all distinct "
         "preemption sites; plus sampled 2-3 preemption schedules). Oracle: the COMPLETE history, reads "
         "included, is linearizable against the plain model: some total order respecting program order "
@@ -48,7 +52,7 @@ def read_op(draw, kind, n):
     if m == "getitem":
         return {"m": m, "a": enc([draw(st.integers(-1, max(0, n - 1)))])}
     if m == "getitem_child":
-        return {"m": "getitem", "a": enc([0])}
+        return {"m": "getitem", "a": enc([draw(st.integers(0, 2))])}
     if m == "contains":
         return {"m": m, "a": enc([draw(st.sampled_from([1, 2, "s"]))])}
     if m == "eq":
@@ -66,10 +70,70 @@ def write_op(draw, kind, n):
     return op
 
 
-def draw_program(draw, ci):
+def draw_eq_mix(draw, ci):
+    """Steered family: ONE write changes a scalar entry and, in place, the content of a nested
+    container; a reader on its own object compares the collection with a value that takes some
+    entries from before and the others from after that write - a state the collection never had."""
+    from ..plain import Slice
     kind = ci.kind
     inner = {"l": [1, 2], "d": {"a": 2}}
-    doc = {"H": inner, "a": 1, "b": [1]} if kind == "dict" else [inner, 1, 2, "s"]
+    inner2 = {"l": [1, 2, 9], "d": {"a": 3}}
+    if kind == "dict":
+        items = [("a", 1), ("b", [1])]
+        items.insert(draw(st.sampled_from([0, 1, 2])), ("H", inner))
+        doc = dict(items)
+        new = {"a": 2}
+        if draw(st.booleans()):
+            new["b"] = [1, 2]
+        if len(new) == 1 or draw(st.booleans()):
+            new["H"] = inner2
+        w = {"m": "update", "a": enc([new]), "h": 1}
+        s1 = dict(doc, **copy.deepcopy(new))
+        how = draw(st.sampled_from(["scalars_old", "scalars_old", "scalars_new", "random"]))
+        pick = lambda k: (draw(st.booleans()) if how == "random" else  # noqa: E731
+                          (how == "scalars_old") == (not isinstance(doc[k], (dict, list))))
+        mix = {k: copy.deepcopy((doc if pick(k) else s1)[k]) for k in doc}
+    else:
+        pos = draw(st.sampled_from([1, 2]))
+        doc = [1, 2, "s"]
+        doc.insert(pos, inner)
+        new = [9, copy.deepcopy(inner2)] if pos == 1 else [9, 8, copy.deepcopy(inner2)]
+        w = {"m": "setitem", "a": enc([Slice(0, len(new), None), new]), "h": 1}
+        s1 = new + doc[len(new):]
+        how = draw(st.sampled_from(["scalars_old", "scalars_old", "scalars_new", "random"]))
+        pick = lambda i: (draw(st.booleans()) if how == "random" else  # noqa: E731
+                          (how == "scalars_old") == (not isinstance(doc[i], (dict, list))))
+        mix = [copy.deepcopy((doc if pick(i) else s1)[i]) for i in range(len(doc))]
+    r = [{"m": "eq", "a": enc([mix]), "h": 0}]
+    if draw(st.booleans()):
+        r.append({"m": draw(st.sampled_from(["call", "eq"])), "a": [] if r is None else [], "h": 0})
+        if r[-1]["m"] == "eq":
+            r[-1]["a"] = enc([s1])
+    threads = [r, [w]]
+    roles = ["r", "w"]
+    p = {"property": ID, "class": ci.name, "docs": [enc(doc)], "root_kinds": [kind],
+         "handles": [{"file": 0}, {"file": 0}], "kinds": [kind, kind], "threads": threads, "roles": roles,
+         "family": "eq_mix"}
+    if ci.buffered and draw(st.integers(0, 3)) == 0:
+        p["buffered"] = {"cap": None}
+    return p
+
+
+def draw_program(draw, ci):
+    kind = ci.kind
+    if draw(st.sampled_from([0, 1, 2])) == 1:
+        return draw_eq_mix(draw, ci)
+    inner = {"l": [1, 2], "d": {"a": 2}}
+    # position of the nested container among the scalars varies: reads that walk the content
+    # (==, (), iter) meet scalars before or after the first nested child
+    pos = draw(st.sampled_from([0, 1, 2]))
+    if kind == "dict":
+        items = [("a", 1), ("b", [1])]
+        items.insert(pos, ("H", inner))
+        doc = dict(items)
+    else:
+        doc = [1, 2, "s"]
+        doc.insert(pos, inner)
     two = draw(st.booleans())
     handles = [{"file": 0}] + ([{"file": 0}] if two else [])
     kinds = [kind] * len(handles)
@@ -87,6 +151,7 @@ def draw_program(draw, ci):
         threads.append(tops)
     while sum(len(t) for t in threads) > 5:
         max(threads, key=len).pop()
+    _eq_operands(draw, kind, doc, threads, roles)
     buffered = None
     if ci.buffered and draw(st.booleans()):
         buffered = {"cap": None}
@@ -95,6 +160,44 @@ def draw_program(draw, ci):
     if buffered:
         p["buffered"] = buffered
     return p
+
+
+def _eq_operands(draw, kind, doc, threads, roles):
+    """Operands for ``==``: the initial content S0, the content S1 after one of the writers'
+    operations, or a MIX that takes some top-level entries from S0 and the others from S1 - a value
+    the collection never had, so ``True`` is an impossible read."""
+    wops = [op for t, r in zip(threads, roles) if r == "w" for op in t]
+    for t, r in zip(threads, roles):
+        if r != "r":
+            continue
+        for op in t:
+            if op["m"] != "eq" or not wops or draw(st.integers(0, 5)) == 0:
+                continue
+            w = draw(st.sampled_from(wops))
+            s1 = copy.deepcopy(doc)
+            try:
+                model_apply(s1, kind, w["m"], dec(w["a"]), {})
+            except Exception:
+                pass
+            choice = draw(st.sampled_from(["s0", "s1", "mix", "mix", "mix"]))
+            if choice == "s0":
+                v = copy.deepcopy(doc)
+            elif choice == "s1":
+                v = s1
+            elif kind == "dict":
+                v = {}
+                for k in list(doc) + [k for k in s1 if k not in doc]:
+                    src = doc if draw(st.booleans()) else s1
+                    if k in src:
+                        v[k] = copy.deepcopy(src[k])
+            else:
+                n = max(len(doc), len(s1))
+                v = []
+                for i in range(n):
+                    src = doc if draw(st.booleans()) else s1
+                    if i < len(src):
+                        v.append(copy.deepcopy(src[i]))
+            op["a"] = enc([v])
 
 
 def apply_exclusions(program, excl, acc):
@@ -164,6 +267,8 @@ def run_shard(spec, seed, tier, active):
         acc.counters["programs"] += 1
         acc.counters["programs_buffered" if program.get("buffered") else "programs_unbuffered"] += 1
         acc.counters["programs_shared_object" if len(program["handles"]) == 1 else "programs_two_objects"] += 1
+        if program.get("family"):
+            acc.counters["family." + program["family"]] += 1
         if len(acc.samples) < 3:
             acc.samples.append({"program": {k: program[k] for k in ("class", "handles", "threads", "roles")},
                                 "buffered": bool(program.get("buffered")),
